@@ -5165,9 +5165,11 @@ class TLSConnection(TLSRecordLayer):
                 # doing PSK key exchange
                 return None, certList, private_key
 
-        if hashAndAlgsExt is None or hashAndAlgsExt.sigalgs is None:
+        if version < (3, 3) or \
+                hashAndAlgsExt is None or hashAndAlgsExt.sigalgs is None:
             # RFC 5246 states that if there are no hashes advertised,
-            # sha1 should be picked
+            # sha1 should be picked; before TLS 1.2 the signature algorithm
+            # is fixed and the extension does not apply
             return "sha1", certList, private_key
 
         if check_alt:
